@@ -177,7 +177,22 @@ fn gen_program(rng: &mut Rng) -> String {
 fn reference(c: &Case) -> Option<(Machine, usize)> {
     let asm = AsmParser::parse(&c.text).ok()?;
     let bc = Translator::compile(&asm);
-    let mut m = Machine::new_with_program(config(c), bc);
+    // "a machine with that program and configuration", put together from the single setters so
+    // that the reference does not share the runner's way of applying a MachineConfig
+    let mut m = Machine::new_with_program(MachineConfig::default(), bc);
+    m.set_input_fc(c.cfg[0]);
+    m.set_input_fd(c.cfg[1]);
+    m.set_input_fe(c.cfg[2]);
+    m.set_input_ff(c.cfg[3]);
+    m.set_digital_input1(c.cfg[4]);
+    m.set_temp(c.volts[0]);
+    m.set_analog_input1(c.volts[1]);
+    m.set_analog_input2(c.volts[2]);
+    m.set_jumper1(c.flags[0]);
+    m.set_jumper2(c.flags[1]);
+    m.set_universal_input_output1(c.flags[2]);
+    m.set_universal_input_output2(c.flags[3]);
+    m.set_universal_input_output3(c.flags[4]);
     let mut i = 0usize;
     while i < c.budget {
         if c.interrupts.contains(&i) {
